@@ -49,6 +49,12 @@ pub struct ProcOut {
     pub stderr: Vec<u8>,
 }
 
+impl ProcOut {
+    pub fn out_bytes(&self) -> Vec<u8> {
+        self.stdout.clone()
+    }
+}
+
 #[derive(Clone, Debug, PartialEq)]
 pub enum StdoutKind {
     Pipe,
